@@ -48,7 +48,7 @@ func zzPickCfg() zzCfg {
 
 // zzPickCfgWatch: configurations for the harnesses that run real watcher goroutines.  The thorough
 // tier is the union of two explorations: the quick data bounds under a larger delay bound, and larger
-// data bounds (capacities up to 8 for kind watches, up to 4 for single-resource watches, a second publish/receive round for capacities <= 2) under the quick
+// data bounds (capacities up to 4, a second publish/receive round for capacities <= 2) under the quick
 // delay bound.
 func zzPickCfgWatch(nMore int) (zzCfg, int) {
 	if verif.Tier() != "thorough" {
@@ -217,7 +217,7 @@ func zzPublish(c *ResourceCollection, id resource.ID, tag int64) {
 // while more events are published; it is errored only if it lags by more than
 // the capacity, and it never stops silently.
 func ZZ_ResumeIsSuffix() {
-	cfg, rounds := zzPickCfgWatch(len(zzConfigs))
+	cfg, rounds := zzPickCfgWatch(7)
 	W := zzSymW(cfg)
 	c := zzCollectionAt(cfg, W, func(int64) resource.ID { return "x" })
 	P := verif.Int64("P")
